@@ -16,15 +16,26 @@ MANIFEST = {
             "handler takes time so that the clock and last_rx_tx run ahead of the pass's now, retransmissions, the reclamation walk — leaves "
             "no unreferenced idle session with last_rx_tx + session_timeout <= now (idle_reclaimed_after_timeout) and deletes ONLY such "
             "sessions, for any now argument (reclaimed_only_after_timeout, session_used_after_now_survives), after coap_free_context at any point the ledger is empty (teardown_ledger_empty, "
-            "ledger_never_bad); a Lean-verified monitor ledgerOk (ledgerOk_iff) judges the REAL allocation trace recorded through wrapped "
+            "ledger_never_bad).  M also covers STREAM sessions (CoAP over TCP: coap_new_server_session, coap_read_session with "
+            "session->partial_pdu, coap_session_disconnected_lkd -> state NONE): the reclamation test is transcribed as ref == 0 && "
+            "delayqueue == NULL && (timed out || state NONE), a session something refers to survives every pass also when its peer has "
+            "closed the connection (referenced_session_survives_pass), a session with an open connection is reclaimed only after the "
+            "timeout (open_session_reclaimed_only_after_timeout), the partly received PDU is a ledger object that hangs off a live "
+            "session in every reachable state and is released with it — timeout, closed connection, teardown "
+            "(partial_pdu_hangs_off_live_session, reclaim_releases_partial_pdu, teardown_ledger_empty); a Lean-verified monitor ledgerOk (ledgerOk_iff) judges the REAL allocation trace recorded through wrapped "
             "coap_malloc_type/free_type.  M is tied to the compiled code by exact trace equality (session->ref, last_rx_tx and the "
-            "notifications each peer received, after EVERY event) on generated histories from 1..50 peers on a real server context with "
+            "notifications each peer received, partial_read / partial_pdu / state NONE of stream sessions, after EVERY event) on generated "
+            "histories from 1..50 datagram peers and 0..4 stream peers (TCP endpoint; connect, whole requests, requests cut anywhere in "
+            "the header or body, EOF from the peer, disconnect by the application, each while the application / an async entry / a "
+            "delayed response / an observation refers to the session) on a real server context with "
             "virtual clock and scripted network; the property is also read off the implementation's own output (among others: the "
             "reference counts of all live sessions add up to the number of subscriptions + queued messages + async entries + application "
             "references that exist; a session-deleted event outside teardown is either the eviction of the oldest idle session at the "
             "idle limit or comes from an I/O pass whose now is >= the session's last_rx_tx + session_timeout).",
     "note": "Partial: 'nothing used after release' and leaks of objects not allocated through coap_malloc_type are ASan/LSan observations on "
-            "the histories run.  UDP endpoints only in the differential runs (D9); notifications are NON (both observable resources "
+            "the histories run.  UDP and TCP endpoints in the differential runs (the three socket shims coap_socket_accept_tcp / "
+            "coap_socket_read / coap_socket_write are interposed; no TLS/WebSocket/DTLS sessions: D9); the idle limit is judged on "
+            "datagram endpoints only (D15: coap_new_server_session has no idle accounting); notifications are NON (both observable resources "
             "are NOTIFY_NON_ALWAYS), confirmable notifications are outside the generated alphabet.  Trusted: Lean kernel (+ propext, Classical.choice, "
             "Quot.sound), harness + allocator wrap + oracle, the hand transcription M (checked on the histories run).",
     "design_ref": "DESIGN.md §4 C12, design/C12.md",
@@ -34,10 +45,17 @@ NAMESPACE = "Coap.C12"
 REQUIRED_THEOREMS = ["peer_session_functional_injective", "one_new_one_del_per_session", "ref_eq_holders",
                      "no_free_while_referenced", "reregistration_keeps_refcount", "rst_releases_exactly_one", "idle_reclaimed_after_timeout", "reclaimed_only_after_timeout",
                      "session_used_after_now_survives", "oldest_idle_evicted_at_limit",
-                     "teardown_ledger_empty", "ledger_never_bad", "ledgerOk_iff", "same_peer_same_session"]
-RULE = ("one line = one whole history on a fresh real server context with two UDP endpoints: requests from 1..50 peers "
+                     "teardown_ledger_empty", "ledger_never_bad", "ledgerOk_iff", "same_peer_same_session",
+                     "referenced_session_survives_pass", "open_session_reclaimed_only_after_timeout",
+                     "partial_pdu_hangs_off_live_session", "reclaim_releases_partial_pdu", "teardown_state_empty"]
+RULE = ("one line = one whole history on a fresh real server context with two UDP endpoints and one TCP endpoint: requests from 1..50 peers "
         "(peers P and P+25 share the remote address/port and differ in the local port only; groups share the remote IP or the "
-        "remote port), observe register/deregister on two observable resources with explicit token (3 variants) and query (2 "
+        "remote port) and, in about a third of the histories, 1..4 stream peers (connect + CSM, whole requests / observe / async / "
+        "delayed responses on the connection, a request sent in two parts cut at 1..26 of 27 bytes — inside the 3 byte header or "
+        "after it, when session->partial_pdu exists — with time jumps, I/O passes, references, the rest of the message, EOF, an "
+        "application disconnect or the context teardown in between; the peer closing the connection / the application disconnecting "
+        "while the application, an async entry, a pending delayed response or an observation refers to the session, then releases, "
+        "frees, I/O passes, reconnects), observe register/deregister on two observable resources with explicit token (3 variants) and query (2 "
         "variants: another cache key), including re-registration of the same resource/query under a NEW token and Observe:1 with "
         "a known / unknown token, 'resource changed' (coap_resource_notify_observers) with the NON notifications sent in the next "
         "I/O pass, peer RST / empty ACK for the k-th last notification it received on its session (fresh and stale ids), async "
@@ -48,7 +66,8 @@ RULE = ("one line = one whole history on a fresh real server context with two UD
         "(retransmission deadlines, session_timeout-1/0/+1), I/O steps, context teardown at any point (always at the end); "
         "non-trivial = distinct history that created at least one session and has at least 4 events")
 TRUSTED_BASE = ["Lean 4.33 kernel; axioms allowed: propext, Classical.choice, Quot.sound (audited per theorem each run)",
-                "harness/sessions.c on sim_core.h (virtual clock, scripted datagram network), the wrapped allocator "
+                "harness/sessions.c on sim_core.h (virtual clock, scripted datagram network; for stream peers the interposed socket shims "
+                "coap_socket_accept_tcp / coap_socket_read / coap_socket_write: a connection is a socketpair end, bytes and EOF are scripted), the wrapped allocator "
                 "(coap_malloc_type/realloc_type/free_type) that records the real allocation trace, harness/sessions_pipe.py, "
                 "generators and the python oracle that reads the implementation's own output",
                 "ASan/LSan as observers of the compiled C (use after release, leaks of objects not allocated through coap_malloc_type)",
@@ -56,14 +75,20 @@ TRUSTED_BASE = ["Lean 4.33 kernel; axioms allowed: propext, Classical.choice, Qu
                 "compiled code only on the histories run"]
 ASSUMPTIONS = ["partial: 'nothing used after release' in the compiled C is ASan's observation on the histories run; the theorems are "
                "about M's reference/ledger bookkeeping and about the verified monitor ledgerOk, which judges the real allocation trace",
-               "UDP endpoints only in the differential runs (DTLS sessions need GnuTLS handshakes: C19); SPEC DECISION D9",
+               "UDP and TCP endpoints in the differential runs (DTLS/TLS sessions need GnuTLS handshakes: C19; no WebSockets); SPEC DECISION D9; "
+               "a stream peer reconnects only after the session of its previous connection is gone; stream messages are whole or cut once",
+               "SPEC DECISION D15: 'the oldest idle one when the idle-session limit is reached' is coap_endpoint_get_session's rule "
+               "(datagram endpoints); accepting a stream connection (coap_new_server_session) does no idle accounting and evicts nothing",
                "the application releases only references it holds (D14) and does not use session pointers after coap_free_context (D13)",
                "compiled Lean definitions agree with the kernel's reading of them"]
 SPEC_DECISIONS = ["D9 peer_session_functional_injective: UDP, and DTLS without connection-id re-keying",
                   "D13 'valid while the application refers to it' is scoped to the life of the context; everything-released has priority at teardown",
-                  "D14 the application releases only references it holds"]
+                  "D14 the application releases only references it holds",
+                  "D15 the idle-session limit is enforced where sessions are created from datagrams (coap_endpoint_get_session); "
+                  "accepting a stream connection neither counts nor evicts"]
 RUN_KW = {"timeout": 900, "env": {"ASAN_OPTIONS": "detect_leaks=1:abort_on_error=0:exitcode=86:allocator_may_return_null=1"}}
-WRAPS = SIM_WRAPS + ["coap_malloc_type", "coap_realloc_type", "coap_free_type"]
+WRAPS = SIM_WRAPS + ["coap_malloc_type", "coap_realloc_type", "coap_free_type",
+                     "coap_socket_accept_tcp", "coap_socket_read", "coap_socket_write"]      # stream socket shims (harness/sessions.c)
 
 
 def harness(ctx):
@@ -85,8 +110,16 @@ def gen_history(rng, big=False):
         for p in ([r, r + 25] if rng.random() < 0.35 else [r + 25 * rng.randrange(2)]):
             if p not in pool and len(pool) < npeers:
                 pool.append(p)
+    # stream (CoAP over TCP) peers 50..57: in about a third of the histories, 1..4 of them next to the datagram peers
+    if rng.random() < 0.36:
+        ns = rng.choice([1, 1, 2, 2, 3, 4])
+        pool += rng.sample(range(50, 58), ns)
+        if rng.random() < 0.3:
+            pool = [p for p in pool if p >= 50] + pool[: rng.randrange(3)]       # (almost) only stream peers
+        rng.shuffle(pool)
     timeout = 300
     toks = []
+    connected = set()
     if rng.random() < 0.6:
         timeout_set = rng.choice([1, 2, 3, 5, 10, 60, 300, 0])
         toks.append("s%d" % timeout_set)
@@ -108,9 +141,62 @@ def gen_history(rng, big=False):
         t = timeout * 1000
         return rng.choice([0, 0, 1, 1, 2, 5, 40, 250, 1000, 2000, 2001, max(1, t - 1), t, t + 1, 2 * t])
 
+    def stream_ev(p):
+        """what a stream peer and the application do with its connection: connect, whole requests, a request in two parts
+        (cut anywhere: inside the 3 byte header or after it) with time / I/O passes / the end of the connection / the end of
+        the context in between, observe, async and delayed responses, application references, close by the peer or by the
+        application while something still refers to the session, reconnect"""
+        out = []
+        if p not in connected or rng.random() < 0.06:
+            out.append("n%d" % p); connected.add(p)
+            if rng.random() < 0.1: return out
+        c = rng.random()
+        if c < 0.16: out.append("r%d" % p)
+        elif c < 0.26: out.append(obs("o", p))
+        elif c < 0.29: out.append(obs("d", p))
+        elif c < 0.36: out.append("a%d" % p)
+        elif c < 0.39: out.append("f%d" % p)
+        elif c < 0.46:
+            d = rng.choice([0, 1, 5, 40, 1000, timeout * 1000])
+            out.append("b%d.%d.%d" % (p, d, dur()))
+            if d and rng.random() < 0.6:
+                if rng.random() < 0.4: out.append("z%d" % p)
+                out += ["T%d" % rng.choice([d, d + 1, max(1, d - 1)]), rng.choice(["i", "i", "I1", "r%d" % rng.choice(pool)])]
+        elif c < 0.56: out.append("+%d" % p)
+        elif c < 0.63: out.append("-%d" % p)
+        elif c < 0.78:
+            # a message in two parts
+            out.append("p%d.%d" % (p, rng.choice([1, 2, 3, 3, 4, 5, 13, 20, 25, 26, rng.randrange(1, 27)])))
+            t = timeout * 1000
+            for _ in range(rng.choice([0, 0, 1, 1, 2, 3])):
+                out.append(rng.choice(["i", "i", "T1", "T1000", "T%d" % max(1, t - 1), "T%d" % t, "T%d" % (t + 1), "+%d" % p, "-%d" % p,
+                                       "r%d" % p, "r%d" % rng.choice(pool), "a%d" % rng.choice(pool), "c0", "I5", "p%d.3" % p]))
+            r = rng.random()
+            if r < 0.45: out.append("e%d" % p)
+            elif r < 0.65: out.append("z%d" % p)
+            elif r < 0.75: out.append("x%d" % p)
+            elif r < 0.83: out.append("F")
+        elif c < 0.80: out.append("e%d" % p)
+        elif c < 0.93:
+            # the connection goes away, possibly while the application / an async entry / an observation refers to the session
+            if rng.random() < 0.6:
+                out.append(rng.choice(["+%d", "+%d", "a%d", "b%d.0.1", "b%d.2000.1", "o%d.0", "o%d.1"]) % p)
+            out.append("%s%d" % ("z" if rng.random() < 0.75 else "x", p))
+            for _ in range(rng.choice([0, 1, 1, 2, 3])):
+                out.append(rng.choice(["i", "i", "T1", "T2000", "T%d" % (timeout * 1000), "-%d" % p, "-%d" % p, "f%d" % p, "n%d" % p, "r%d" % p,
+                                       "z%d" % p, "x%d" % p, "+%d" % p, "r%d" % rng.choice(pool), "I3"]))
+        else: out.append("x%d" % p)
+        return out
+
+    dpool = [q for q in pool if q < 50] or [rng.randrange(50)]
     base = len(toks)
     while len(toks) - base < n:
         p = rng.choice(hot) if rng.random() < 0.5 else rng.choice(pool)
+        if p >= 50 and rng.random() < 0.85:
+            toks += stream_ev(p)
+            if toks[-1] == "F": break
+            continue
+        if p >= 50: p = rng.choice(dpool)
         c0 = rng.random()
         if c0 < 0.035:
             # a delayed response: the request is parked (async entry with a delay), the delay passes, an I/O pass (an
@@ -119,7 +205,7 @@ def gen_history(rng, big=False):
             toks.append("b%d.%d.%d" % (p, d, dur()))
             r = rng.random()
             if r < 0.75 and d:
-                if rng.random() < 0.3: toks.append(rng.choice(["r%d", "b%d.7.3", "+%d", "q%d", "o%d.0"]) % rng.choice(pool))
+                if rng.random() < 0.3: toks.append(rng.choice(["r%d", "b%d.7.3", "+%d", "q%d", "o%d.0"]) % rng.choice(dpool))
                 toks.append("T%d" % rng.choice([d, d, d + 1, d + 1000, max(1, d - 1), 2 * d]))
                 toks.append(rng.choice(["i", "i", "i", "I1", "r%d" % rng.choice(pool), "r%d" % p, "b%d.1.1" % rng.choice(pool)]))
                 if rng.random() < 0.5: toks.append(rng.choice(["i", "r%d" % p, "T1", "T%d" % (timeout * 1000), "I2"]))
@@ -180,7 +266,7 @@ def generate(ctx, escalate=False):
 
 # ------------------------------------------------------------------ reading a canonical line
 def split_line(s):
-    """-> (segments [(token, outcome, events [str], refs {idx: (ref, last)} | None, idle (i0, i1), live (s, o, n, a, app), clock)], fields {ledger, lsan})"""
+    """-> (segments [(token, outcome, events [str], refs {idx: (ref, last)} | None, idle (i0, i1, i2), live (s, o, n, a, app), clock)], fields {ledger, lsan})"""
     parts = s.split(" | ")
     fields = {}
     for p in parts[1:]:
@@ -200,8 +286,10 @@ def split_line(s):
                 i, _, rest = r.partition("=")
                 a, _, b = rest.partition("@")
                 refs[i] = (int(a), int(b.partition("#")[0]))
-        i0, i1 = I[1:].split("/")
-        segs.append((tok, outcome, evs, refs if refs is not None else {}, (int(i0), int(i1)), tuple(int(x) for x in L[1:].split("/")),
+        idle = tuple(int(x) for x in I[1:].split("/"))
+        if len(idle) != 3:
+            raise ValueError("bad idle counts %r" % I)
+        segs.append((tok, outcome, evs, refs if refs is not None else {}, idle, tuple(int(x) for x in L[1:].split("/")),
                      int(Ck[1:])))
     return segs, fields
 
@@ -230,6 +318,8 @@ def oracle(inp, impl):
     prev_refs, prev_live = {}, {}
     active = {}          # idx -> arrival time of the last datagram the harness saw this session handle (a lower bound of last_rx_tx
                          # that does not depend on what the implementation wrote there)
+    closed = set()       # sessions of stream peers whose connection is gone (the peer closed it: `z`; the application: `x`) —
+                         # known from the INPUT and the session-new events alone
     nxt = 0
     for k, (tok, outcome, evs, refs, idle, lv, clock) in enumerate(segs):
         c = tok[0]
@@ -241,8 +331,12 @@ def oracle(inp, impl):
         # before the pass of a datagram event starts); `I<d>` hands the pass an older one.  Inside the pass the clock may move on
         # (the handler of a delayed response takes time): the harness prints the clock after every event
         pass_now = max(0, now - int(tok[1:])) if c == "I" else now
-        runs_pass = c in "irodaktybI" and not outcome.startswith("skip")
-        creator = peer_of(tok) if c in "rodaktyb" else None
+        runs_pass = c in "irodaktybInpez" and not outcome.startswith("skip")
+        creator = peer_of(tok) if c in "rodaktybnpez" else None
+        stream = creator is not None and creator >= 50
+        # the connection of a stream peer ends: from now on its session may be reclaimed as soon as nothing refers to it
+        if c in "zx" and not outcome.startswith("skip") and peer_of(tok) >= 50 and peer_of(tok) in owner:
+            closed.add(owner[peer_of(tok)])
         # events: exactly one NEW and one DEL per session, in a sensible order
         dels_here = []
         # the datagram is handled before the I/O pass that ends the event: the peer's session AT THAT MOMENT is the one after
@@ -263,6 +357,8 @@ def oracle(inp, impl):
                 seen_new.add(idx); nxt += 1
                 if creator is None:
                     return "session %s created by an event that carries no datagram (%s)" % (idx, tok)
+                if stream != (c == "n"):
+                    return "session %s created by `%s`: a stream peer's session is created by its connection and only by it (event %d)" % (idx, tok, k)
                 if creator in owner:
                     return "peer %d already has the live session %s but session %s was created for it (event %d, %s)" % (
                         creator, owner[creator], idx, k, tok)
@@ -294,7 +390,8 @@ def oracle(inp, impl):
                         sum(r for r, _ in refs.values()), lv[1], lv[2], lv[3], lv[4], sum(lv[1:]), k, tok))
         # eviction at the idle limit: the oldest idle session of that endpoint goes
         evicted = []
-        if creator is not None and any(e.startswith("N") for e in evs):
+        # (SPEC DECISION D15: the idle limit is that of coap_endpoint_get_session, i.e. of datagram endpoints)
+        if creator is not None and not stream and any(e.startswith("N") for e in evs):
             ep = creator // 25
             idle_before = [(i, prev_refs[i][1]) for i in prev_refs if prev_refs[i][0] == 0 and prev_live.get(i, -1) // 25 == ep]
             pre = evs[: next(j for j, e in enumerate(evs) if e.startswith("N"))]        # deletions BEFORE the creation
@@ -324,9 +421,14 @@ def oracle(inp, impl):
                 if idx not in prev_refs:
                     return "session %s created and deleted by the same event (event %d, %s)" % (idx, k, tok)
                 last = max(prev_refs[idx][1], active.get(idx, 0))
-                if last + timeout * 1000 > pass_now:
+                if idx in closed:
+                    continue        # a stream session whose connection is gone (that it was unreferenced: `!ref` above)
+                # `n` = accept + the peer's CSM: two read events, each ends with a pass; a handler in the first pass may take
+                # time, so the second pass's `now` lies between the clock before and after the event
+                del_now = clock if c == "n" else pass_now
+                if last + timeout * 1000 > del_now:
                     return ("session %s reclaimed before its session timeout: last_rx_tx >= %d, timeout %ds, but the I/O pass ran with now = %d "
-                            "(clock afterwards %d) (event %d, %s)" % (idx, last, timeout, pass_now, clock, k, tok))
+                            "(clock afterwards %d) (event %d, %s)" % (idx, last, timeout, del_now, clock, k, tok))
         # reclamation: after an I/O pass no unreferenced session is older than the timeout
         if runs_pass:
             for i, (ref, last) in refs.items():
@@ -406,7 +508,7 @@ def nontrivial(c):
 
 def classify(c):
     n = len(c["input"].split()) - 1
-    peers = {t[1:].split(".")[0] for t in c["input"].split()[1:] if t[0] in "rodafqk+-xtyb"}
+    peers = {t[1:].split(".")[0] for t in c["input"].split()[1:] if t[0] in "rodafqk+-xtybnpez"}
     return "ev<=%d peers<=%d" % (next(b for b in (8, 20, 45, 80, 10 ** 6) if n <= b), next(b for b in (1, 3, 8, 20, 50) if len(peers) <= b))
 
 
